@@ -994,8 +994,11 @@ class VariationalWassersteinDistance(darsia.EMD):
                             weighted_subcell_flux, 2, axis=-1
                         ).ravel("F")[cells]
 
-            # Average over the subcells using harmonic averaging
-            flat_weighted_flux_norm = hmean(subcell_flux_norm, axis=1)
+            # Average over the subcells using harmonic averaging. Regularize as in the
+            # cell-based modes; the norm vanishes in regions free of flux.
+            flat_weighted_flux_norm = np.maximum(
+                hmean(subcell_flux_norm, axis=1), self.regularization
+            )
 
             # Combine weights**2 / |weight * flux| on faces
             face_weights = harm_avg_face_weights**2 / flat_weighted_flux_norm
@@ -1016,7 +1019,11 @@ class VariationalWassersteinDistance(darsia.EMD):
 
             # Determine the l2 norm of the fluxes on the faces
             weighted_face_flux = self._product(harm_avg_face_weights, full_face_flux)
-            norm_weighted_face_flux = np.linalg.norm(weighted_face_flux, 2, axis=1)
+            # Regularize as in the cell-based modes; the norm vanishes in regions free of
+            # flux.
+            norm_weighted_face_flux = np.maximum(
+                np.linalg.norm(weighted_face_flux, 2, axis=1), self.regularization
+            )
 
             # Combine weights**2 / |weight * flux| on faces
             face_weights = harm_avg_face_weights**2 / norm_weighted_face_flux
